@@ -312,6 +312,9 @@ class Arr:
     def copy(self):
         return Arr(self.n, self.kind, self.getter(), self.unit)
 
+    def __deepcopy__(self, memo):
+        return self.copy()
+
     def flatten(self):
         return self.copy()
 
@@ -864,6 +867,9 @@ def _as_bool_index(idx):
 def arr_getitem(a, idx):
     if isinstance(idx, tuple) and len(idx) == 1:
         idx = idx[0]
+    if idx is True:
+        # a[array(True)] has shape (1, n): the whole array with an extra axis; the streams reshape it back
+        return Selection(a, const_arr(a.n, "b", (False, True)))
     if isinstance(idx, slice):
         lo, ln = norm_slice(idx, a.n)
         return View(a, lo, ln)
@@ -987,7 +993,32 @@ class Selection:
 
     @property
     def size(self):
-        raise Unsupported("size of a selection (needs a count)")
+        """number of selected rows: an abstract count (0 <= c <= n, c == n iff every row, c == 0 iff none)"""
+        if not hasattr(self, "_size"):
+            sel = self.sel
+            c = count_true(self.base_n, lambda i: sel(i)[1], "selected")
+            self._size = _len_value(c) if not alg.is_sym(c) else SNum(c, False, "pyi")
+        return self._size
+
+    def to_numpy(self):
+        return self
+
+    def __deepcopy__(self, memo):
+        c = Selection.__new__(Selection)
+        c.__dict__.update(self.__dict__)
+        return c
+
+    def reshape(self, *shape):
+        """reshape to the shape of the unselected array: possible only when every row is selected"""
+        if len(shape) == 1 and isinstance(shape[0], tuple):
+            shape = shape[0]
+        if len(shape) != 1:
+            raise Unsupported("reshape of a selection to %d dims" % len(shape))
+        sel = self.sel
+        allsel = reduce_all(Arr(self.base_n, "b", lambda i: sel(i)), None)
+        if not _same_len(raw(shape[0]), self.base_n) or not _fork(allsel.t):
+            raise ValueError("cannot reshape array of size into shape")
+        return self
 
     def __setitem__(self, idx, value):
         # selections handed out by the streams are views of frame columns (read-only under pandas
